@@ -42,12 +42,28 @@ CheckSlice(orig, sl) ==
   ELSE ""
 
 (* ---- structural image of Metamath terms as matching-logic patterns ---- *)
-RECURSIVE ImgTerm(_), AppFold(_, _)
-Tok2Id(tok) == tok      \* ids are strings here; compared only after canonical renumbering
-AppFold(f, args) == IF args = <<>> THEN f ELSE AppFold([t |-> "app", l |-> f, r |-> ImgTerm(Head(args))], Tail(args))
-ImgTerm(t) == IF "m" \in DOMAIN t THEN [t |-> "mv", i |-> t.m]
-              ELSE IF t.s = "\\imp" /\ Len(t.a) = 2 THEN [t |-> "imp", l |-> ImgTerm(t.a[1]), r |-> ImgTerm(t.a[2])]
-              ELSE AppFold([t |-> "sym", i |-> t.s], t.a)
+\* declared notations:  x-is-sugar $a #Notation ( \x p1 .. pk ) rhs $.   (the image of an application of \x is the image of rhs)
+RECURSIVE SugarOf(_)
+SugarOf(ss) ==
+  IF ss = <<>> THEN <<>> ELSE
+  LET st == Head(ss) IN
+  (IF st.k = "a" /\ Len(st.terms) = 3 /\ "s" \in DOMAIN st.terms[1] /\ st.terms[1].s = "#Notation" /\ "s" \in DOMAIN st.terms[2]
+   THEN << [s |-> st.terms[2].s, params |-> [k \in 1..Len(st.terms[2].a) |-> st.terms[2].a[k].m], rhs |-> st.terms[3]] >>
+   ELSE IF st.k = "b" THEN SugarOf(st.stmts) ELSE <<>>) \o SugarOf(Tail(ss))
+RECURSIVE SubstTerm(_, _, _)
+SubstTerm(t, params, args) ==
+  IF "m" \in DOMAIN t
+  THEN (IF \E k \in 1..Len(params) : params[k] = t.m THEN args[CHOOSE k \in 1..Len(params) : params[k] = t.m] ELSE t)
+  ELSE [s |-> t.s, a |-> [k \in 1..Len(t.a) |-> SubstTerm(t.a[k], params, args)]]
+RECURSIVE ImgTermS(_, _), AppFoldS(_, _, _)
+AppFoldS(f, args, sg) == IF args = <<>> THEN f ELSE AppFoldS([t |-> "app", l |-> f, r |-> ImgTermS(Head(args), sg)], Tail(args), sg)
+ImgTermS(t, sg) ==
+  IF "m" \in DOMAIN t THEN [t |-> "mv", i |-> t.m]
+  ELSE IF t.s = "\\imp" /\ Len(t.a) = 2 THEN [t |-> "imp", l |-> ImgTermS(t.a[1], sg), r |-> ImgTermS(t.a[2], sg)]
+  ELSE IF \E k \in 1..Len(sg) : sg[k].s = t.s /\ Len(sg[k].params) = Len(t.a)
+       THEN LET d == sg[CHOOSE k \in 1..Len(sg) : sg[k].s = t.s /\ Len(sg[k].params) = Len(t.a)] IN
+            ImgTermS(SubstTerm(d.rhs, d.params, t.a), sg)
+  ELSE AppFoldS([t |-> "sym", i |-> t.s], t.a, sg)
 \* sequences of metavariable / symbol ids in traversal order
 RECURSIVE MVOrder(_), SymOrder(_)
 MVOrder(p) == CASE p.t = "mv" -> <<p.i>> [] p.t \in {"imp", "app"} -> MVOrder(p.l) \o MVOrder(p.r) [] OTHER -> <<>>
@@ -79,15 +95,15 @@ IsTurnstile(st) == Len(st.terms) = 2 /\ "s" \in DOMAIN st.terms[1] /\ st.terms[1
 RECURSIVE ImpChain(_, _)
 ImpChain(hs, c) == IF hs = <<>> THEN c ELSE [t |-> "imp", l |-> Head(hs), r |-> ImpChain(Tail(hs), c)]
 \* images of the |- axioms and rules of a database, in database order (blocks: $e hypotheses become antecedents)
-RECURSIVE AxImages(_, _)
-AxImages(ss, ehyps) ==
+RECURSIVE AxImages(_, _, _)
+AxImages(ss, ehyps, sg) ==
   IF ss = <<>> THEN <<>> ELSE
   LET st == Head(ss) IN
   CASE st.k = "a" /\ IsTurnstile(st) /\ st.label \notin BuiltinRules ->
-         <<ImpChain(ehyps, ImgTerm(st.terms[2]))>> \o AxImages(Tail(ss), ehyps)
-    [] st.k = "e" /\ IsTurnstile(st) -> AxImages(Tail(ss), Append(ehyps, ImgTerm(st.terms[2])))
-    [] st.k = "b" -> AxImages(st.stmts, ehyps) \o AxImages(Tail(ss), ehyps)
-    [] OTHER -> AxImages(Tail(ss), ehyps)
+         <<ImpChain(ehyps, ImgTermS(st.terms[2], sg))>> \o AxImages(Tail(ss), ehyps, sg)
+    [] st.k = "e" /\ IsTurnstile(st) -> AxImages(Tail(ss), Append(ehyps, ImgTermS(st.terms[2], sg)), sg)
+    [] st.k = "b" -> AxImages(st.stmts, ehyps, sg) \o AxImages(Tail(ss), ehyps, sg)
+    [] OTHER -> AxImages(Tail(ss), ehyps, sg)
 
 CheckTranslate(c) ==
   LET pst == FindP(c.ast, c.target) IN
@@ -97,7 +113,8 @@ CheckTranslate(c) ==
        IF ~r.ok \/ c.rust # "ok" THEN "not-accepted"
        ELSE LET got == [k \in 1..Len(r.st.journal.axioms) |-> Plain(r.st.journal.axioms[k])] \o
                        [k \in 1..Len(r.st.journal.claims) |-> Plain(r.st.journal.claims[k])]
-                want == AxImages(c.ast, <<>>) \o <<ImgTerm(pst.terms[2])>>
+                sug == SugarOf(c.ast)
+                want == AxImages(c.ast, <<>>, sug) \o <<ImgTermS(pst.terms[2], sug)>>
             IN IF Len(got) # Len(want) THEN "image"
                ELSE IF CanonSeq(got) # CanonSeq(want) THEN "image"
                ELSE IF r.st.journal.proved # r.st.journal.claims THEN "image"
